@@ -144,12 +144,14 @@ def main(argv=None):
                            'origin': v.get('origin', 'generated'), 'seed': seed, 'tier': tier,
                            'shrunk': bool(v.get('shrunk'))}, f, indent=1, default=repr, ensure_ascii=False)
             replay_paths.append(path)
-            out_lines.append(f'VIOLATION property={prop} replay={path}')
-            out_lines.append(f"  kind={v['record']['kind']} site={v['record']['site']} features={v['record']['features']} "
-                             f"config={v['record']['config']}")
-            out_lines.append(f"  detail={v['record']['detail'][:300]}")
-        if rc == 0:
-            rc = 1
+            if len(replay_paths) <= 6:
+                out_lines.append(f'VIOLATION property={prop} replay={path}')
+                out_lines.append(f"  kind={v['record']['kind']} site={v['record']['site']} features={v['record']['features']} "
+                                 f"config={v['record']['config']}")
+                out_lines.append(f"  detail={v['record']['detail'][:300]}")
+        if len(replay_paths) > 6:
+            out_lines.append(f'  ... and {len(replay_paths) - 6} more violation signatures (replay files written)')
+        rc = 1   # a violation backed by a replay file outranks a vacuity / harness warning
 
     wall = time.monotonic() - t0
     if not a.no_evidence:
